@@ -199,7 +199,13 @@ def judge_apply(res, orig, stub, result, overwrite, confine, tmod, keyprefix="")
                 bad.append(("stub-annotation-not-applied", f"{q}({pos}): stub has {ast.unparse(node)!r}, result has no annotation"))
                 continue
             want = se_stub.ann_rt(node, f"stub {q}({pos})")
+            before = len(se_res.events)
             got = se_res.ann_rt(ast.parse(got_src, mode="eval").body, f"result {q}({pos})")
+            missing = [dt for kd, dt, _l in se_res.events[before:] if kd == "name-not-provided-by-stub"]
+            if want is not None and got is None and missing and confine:
+                # with confinement every name an annotation uses is imported at module level or under TYPE_CHECKING
+                bad.append(("annotation-name-imported-nowhere", f"{q}({pos}): {got_src!r}: {missing[0][:120]}"))
+                continue
             if want is None or got is None:
                 res.count("unverifiable_annotation_pairs")
                 continue
@@ -224,6 +230,7 @@ def reclassify(bad, orig, overwrite, confine):
         if not (b.startswith("def ") or "/def " in b):
             local_only.discard(top)
     classes = {n.name for n in ast.walk(ot) if isinstance(n, ast.ClassDef)}
+    nested_classes = {sub.name for n in ast.walk(ot) if isinstance(n, ast.ClassDef) for sub in n.body if isinstance(sub, ast.ClassDef)}
     plain_typing = any(m is None and n == "typing" for m, n, a, lv, b, l in imps)
     out = []
     for key, text in bad:
@@ -234,6 +241,12 @@ def reclassify(bad, orig, overwrite, confine):
         if key.startswith("result-does-not-run:NameError") and mm and plain_typing and mm.group(1) in (
                 "List", "Dict", "Optional", "Union", "Set", "Tuple", "Any", "Type", "Callable", "DefaultDict", "Iterator"):
             key = "typeddict-class-body-name-unresolved-after-apply"
+        mm = re.search(r"name '(\w+)' is not defined", text)
+        if key == "annotation-name-imported-nowhere" and mm and mm.group(1) in local_only:
+            key = "annotation-relies-on-function-local-import"
+        mm = re.search(r"name '(\w+)' is not defined", text)
+        if key == "annotation-name-imported-nowhere" and mm and mm.group(1) in nested_classes:
+            key = "nested-class-annotation-imported-as-module"  # `from Canvas import Layer` sits under TYPE_CHECKING, where it resolves to nothing
         mm = re.search(r"No module named '(\w+)'", text)
         if key.startswith("result-does-not-run:ImportError") and mm and mm.group(1) in classes:
             key = "nested-class-annotation-imported-as-module"
@@ -329,7 +342,7 @@ def work(p):
             res.shape(json.dumps([src["style"], sorted(src["features"])[:6], overwrite, k, confine]))
             c16_keys = ("future-import-not-first", "new-import-not-confined", "runtime-import-confined", "source-import-", "result-does-not-run",
                         "result-behaves-differently", "result-does-not-parse", "apply-fails", "nested-class-annotation-imported-as-module",
-                        "annotation-relies-on-function-local-import", "plain-module-import-added-by-libcst-not-confined")
+                        "annotation-relies-on-function-local-import", "plain-module-import-added-by-libcst-not-confined", "annotation-name-imported-nowhere")
             placement_only = ("future-import-not-first", "new-import-not-confined", "runtime-import-confined", "source-import-removed-or-moved",
                               "plain-module-import-added-by-libcst-not-confined")
             own = {"C15": lambda key: not key.startswith(placement_only), "C16": lambda key: key.startswith(c16_keys)}[prop]
@@ -347,7 +360,7 @@ def work(p):
         # CLI apply (file rewritten in place) for the plain configuration
         if spec.get("cli"):
             judge_cli(res, d, modname, src, tmod, traces, spec)
-        for n in ("shapes", "fastshapes", "geo", "geo.util", "colors", modname):
+        for n in ("shapes", "fastshapes", "geo", "geo.util", "colors", "typing_defs", modname):
             sys.modules.pop(n, None)
         shutil.rmtree(d, ignore_errors=True)
     shutil.rmtree(d0, ignore_errors=True)
